@@ -87,7 +87,10 @@ impl TcpStream {
 
             let syn = Protocol::Tcp(Segment::Syn(Syn { ack }));
             if !is_same(pair.local, pair.remote) {
-                world.send_message(pair.local, pair.remote, syn)?;
+                if let Err(e) = world.send_message(pair.local, pair.remote, syn) {
+                    world.current_host_mut().tcp.reset_stream(pair);
+                    return Err(e);
+                }
             } else {
                 send_loopback(pair.local, pair.remote, syn);
             };
@@ -95,9 +98,16 @@ impl TcpStream {
             Ok::<_, Error>((pair, rx, bidi))
         })?;
 
+        // The socket is registered (and its port taken) before the handshake
+        // completes. Release it again if the connect is refused or this
+        // future is dropped (e.g. a timeout) while waiting.
+        let mut guard = ConnectGuard { pair: Some(pair) };
+
         syn_ack.await.map_err(|_| {
             io::Error::new(io::ErrorKind::ConnectionRefused, pair.remote.to_string())
         })?;
+
+        guard.pair = None;
 
         tracing::trace!(target: TRACING_TARGET, src = ?pair.remote, dst = ?pair.local, protocol = %"TCP SYN-ACK", "Recv");
 
@@ -191,6 +201,19 @@ impl TcpStream {
     /// available.
     pub fn poll_peek(&mut self, cx: &mut Context<'_>, buf: &mut ReadBuf) -> Poll<Result<usize>> {
         self.read_half.poll_peek(cx, buf)
+    }
+}
+
+/// Removes the client socket of a connect that did not complete.
+struct ConnectGuard {
+    pair: Option<SocketPair>,
+}
+
+impl Drop for ConnectGuard {
+    fn drop(&mut self) {
+        if let Some(pair) = self.pair {
+            World::current_if_set(|world| world.current_host_mut().tcp.reset_stream(pair));
+        }
     }
 }
 
